@@ -1377,8 +1377,10 @@ func (tx *tx) mayRollback(err error) error {
 
 // mayCommit may commit a transaction depending on the given transaction mode.
 func (tx *tx) mayCommit() error {
-	// Only commit if each file is wrapped in a transaction.
-	if tx.tx != nil && !tx.dryRun && tx.mode == txModeFile {
+	// Commit whenever the file was wrapped in its own transaction: either the global mode
+	// is "file", or the global mode is "none" and the file sets the "file" mode by a directive.
+	// Only in mode "all" the transaction spans multiple files and is committed at the end.
+	if tx.tx != nil && !tx.dryRun && tx.mode != txModeAll {
 		return tx.commit()
 	}
 	return nil
